@@ -1,9 +1,10 @@
 """C18 — debug and quiet options change what is printed, never what is simulated."""
 from props.common_prog import judge_prog
 
-THEOREM_MODULES = ["Hcl.Theorems.C18"]
+THEOREM_MODULES = ["Hcl.Theorems.C18", "Hcl.Tie.PinsTable"]
 THEOREMS = {"Hcl.Theorems.C18": ["C18_ungrouped_lists", "C18_grouped_lists", "C18_listed_once", "C18_value_reads_back",
-                                 "C18_value_width"]}
+                                 "C18_value_width"],
+            "Hcl.Tie.PinsTable": ["Tie.PinsTable.pinFindTableWidths", "Tie.PinsTable.pinDumpWireSubtable"]}
 
 RULE = ("options: random S-PROG programs (all profiles, 1-12 cycles) are stepped in-process with the real step_with_output "
         "under the empty, the full and six random subsets of {-q,-d,-t,--ungroup-debug-wires,--trace-assignments}; after every "
